@@ -1282,6 +1282,17 @@ class Engine:
             # vector <-> scalar / vector <-> vector via bytes
             bs = s.flatten_bytes(v, ft)
             return s.unflatten_bytes(bs, tt)
+        # clang coerces small float aggregates into integer/double registers: keep the pieces as a bundle
+        if ft.k == 'vector' and tt.k in ('int', 'double'):
+            es, _ = s.L.size_align(ft.elem)
+            return Bundle([(i * es, es, x) for i, x in enumerate(v.e)], fs)
+        if isinstance(v, Bundle) and tt.k == 'vector':
+            es, _ = s.L.size_align(tt.elem)
+            if [(ro, sz) for ro, sz, _ in v.parts] == [(i * es, es) for i in range(tt.n)]:
+                return Agg([x for _, _, x in v.parts])
+            raise Inconclusive('INT mode: bundle does not match the vector it is cast to')
+        if isinstance(v, Bundle):
+            return v
         if ft.k in ('float', 'double') or tt.k in ('float', 'double'):
             raise Inconclusive('REAL mode: bitcast between integer and floating point')
         if ft.k == 'vector' and tt.k == 'vector' and s.L.res(ft.elem) == s.L.res(tt.elem):
